@@ -203,6 +203,24 @@ theorem LeL_of_getD : ∀ (ms ns : List ℕ), ms.length = ns.length → (∀ k, 
 theorem box1_getD {ns : List ℕ} {k : ℕ} (hk : k < ns.length) : (box1 ns).getD k 0 = ns.getD k 0 + 1 := by
   simp [box1, List.getD_eq_getElem?_getD, hk]
 
+/-- `enumerate(l)`: the k-th tuple is `(k, l[k])` -/
+theorem range_zip_self (l : List ℕ) : (List.range l.length).zip l = (List.range l.length).map (fun k => (k, l.getD k 0)) := by
+  apply List.ext_getElem
+  · simp
+  · intro k h1 h2
+    have hk : k < l.length := by simpa using h2
+    simp [List.getD_eq_getElem?_getD, hk]
+
+/-- **the generated loop of `project` pairs axis k with the k-th target size, k = 0, 1, …, each axis once**: the fold over
+    `axisVisits` / `visitDoes` / `visitCall` (read off the loop header, the loop targets, the test and the call of the current
+    source) is the fold over `List.range ns.length` with test `ns[k] ≠ sizes[k]` and call `_project_one_axis(ns[k], k)`. -/
+theorem projectAxes_eq_range (S : Spec) (ns sizes : List ℕ) :
+    Spec.projectAxes S ns sizes = (List.range ns.length).foldl
+      (fun o k => if doAxis (ns.getD k 0) (sizes.getD k 0) then o.projectAxis k (ns.getD k 0) else o) S := by
+  unfold Spec.projectAxes axisVisits
+  rw [range_zip_self, List.foldl_map]
+  rfl
+
 /-- **the whole loop of `Spectrum.project`** on a spectrum with sample sizes `ns`, to sizes `ms ≤ ns`:
     the closed form with the product kernel, data and mask -/
 theorem projectAxes_rel {O : Spec} {f : List ℕ → ℚ} {G : List ℕ → Prop} (ms ns : List ℕ) (hR : Rel O (box1 ns) f G)
@@ -221,7 +239,7 @@ theorem projectAxes_rel {O : Spec} {f : List ℕ → ℚ} {G : List ℕ → Prop
     · simp [box1, hj, List.getD_eq_getElem?_getD]
     · simp [box1, hj]
   rw [hs] at h
-  unfold Spec.projectAxes
+  rw [projectAxes_eq_range]
   refine h.congr ?_ ?_
   · intro idx hbox
     have hl : idx.length = ns.length := by rw [hbox.length, box1_length, hlen]
